@@ -6,6 +6,7 @@ import (
 	"encoding/json"
 	"fmt"
 	"math/bits"
+	"sort"
 	"sync/atomic"
 	"time"
 
@@ -445,9 +446,10 @@ func checkSegments(t []byte, sa, lcp []int32, pair [][]int8, minLen, maxLen int,
 	}()
 	var cbs []segCallback
 	saCopy := append([]int32(nil), sa...)
-	lcpCopy := append([]int32(nil), lcp...)
+	// Segments documents that it modifies sa; the lcp table is an input that a caller may use again, so all
+	// calls for one text share it (checkSegmentsText passes a private copy that lives as long as the text)
 	bad := false
-	suffix.Segments(saCopy, lcpCopy, minLen, maxLen, func(m int, seg []int32) {
+	suffix.Segments(saCopy, lcp, minLen, maxLen, func(m int, seg []int32) {
 		cb := segCallback{m: m, n: len(seg)}
 		for _, p := range seg {
 			if p < 0 || int(p) >= len(t) {
@@ -545,7 +547,165 @@ func fmtCallbacks(cbs []segCallback) string {
 	return s
 }
 
+// checkSegmentsLong is the oracle for texts of more than 64 bytes: the expected callbacks are computed directly -
+// for m < maxLen the classes of suffixes sharing exactly m bytes (LCP intervals of value m), for m = maxLen the
+// classes sharing at least maxLen bytes - and compared with the callbacks as multisets; nested groups must come
+// inner first.
+func checkSegmentsLong(t []byte, sa, lcp []int32, minLen, maxLen int, st *engine.Stats, col *engine.Collector) {
+	engine.Progress.Add(1)
+	fail := func(sig, format string, a ...any) {
+		full := "C10|" + sig
+		var cs any
+		if !col.Seen(full) {
+			cs = TextCase{Text: hex.EncodeToString(t), Print: printable(t), MinLen: minLen, MaxLen: maxLen, Family: "long"}
+		}
+		col.Report(engine.Violation{Property: "C10", Sig: full, Msg: fmt.Sprintf(format, a...), Case: cs, Rank: int64(len(t))<<16 + int64(minLen)<<8 + int64(maxLen)})
+	}
+	defer func() {
+		if r := recover(); r != nil {
+			fail("suffix.Segments|panic", "Segments(text of %d bytes %q, minLen %d, maxLen %d) panicked: %v", len(t), clip(t), minLen, maxLen, r)
+		}
+	}()
+	type cbk struct {
+		m   int
+		mem []int32
+		set map[int32]bool
+	}
+	var got []cbk
+	saCopy := append([]int32(nil), sa...)
+	suffix.Segments(saCopy, lcp, minLen, maxLen, func(m int, seg []int32) {
+		c := cbk{m: m, mem: append([]int32(nil), seg...), set: map[int32]bool{}}
+		sort.Slice(c.mem, func(i, j int) bool { return c.mem[i] < c.mem[j] })
+		for _, p := range c.mem {
+			c.set[p] = true
+		}
+		got = append(got, c)
+	})
+	st.Execs++
+	st.Transitions += int64(len(got)) + 1
+	n := len(t)
+	// (1) every callback: m in range, distinct members inside the text, all sharing their first m bytes
+	for i, g := range got {
+		if g.m < minLen || g.m > maxLen {
+			fail("suffix.Segments|m-range", "text of %d bytes %q minLen %d maxLen %d: callback with m=%d", n, clip(t), minLen, maxLen, g.m)
+			return
+		}
+		if len(g.set) != len(g.mem) {
+			fail("suffix.Segments|duplicate-member", "text of %d bytes %q: callback %d (m=%d) lists a suffix twice", n, clip(t), i, g.m)
+			return
+		}
+		for _, p := range g.mem {
+			if p < 0 || int(p)+g.m > n {
+				fail("suffix.Segments|short-member", "text of %d bytes %q: callback m=%d contains suffix %d", n, clip(t), g.m, p)
+				return
+			}
+			if !bytes.Equal(t[int(p):int(p)+g.m], t[int(g.mem[0]):int(g.mem[0])+g.m]) {
+				fail("suffix.Segments|not-shared", "text of %d bytes %q: callback m=%d contains suffixes %d and %d that do not share %d bytes", n, clip(t), g.m, g.mem[0], p, g.m)
+				return
+			}
+		}
+	}
+	// (2) every two suffixes with common prefix c >= minLen are together in exactly one callback with m = min(c, maxLen).
+	// It suffices to test, for every class of suffixes sharing m bytes, one suffix per continuation byte (pairs with
+	// c == m) and, for m == maxLen, neighbouring members of the class.
+	count := func(m int, a, b int32) int {
+		k := 0
+		for _, g := range got {
+			if g.m == m && g.set[a] && g.set[b] {
+				k++
+			}
+		}
+		return k
+	}
+	for m := minLen; m <= maxLen && m <= n; m++ {
+		classes := map[string][]int32{}
+		for p := 0; p < n && p+m <= n; p++ {
+			classes[string(t[p:p+m])] = append(classes[string(t[p:p+m])], int32(p))
+		}
+		for _, mem := range classes {
+			if len(mem) < 2 {
+				continue
+			}
+			var reps []int32
+			if m == maxLen {
+				reps = mem // all pairs have min(c, maxLen) == m: test neighbours and the two ends
+			} else {
+				seenNext := map[int]bool{}
+				for _, p := range mem {
+					nx := -1
+					if int(p)+m < n {
+						nx = int(t[int(p)+m])
+					}
+					if !seenNext[nx] || nx == -1 {
+						seenNext[nx] = true
+						reps = append(reps, p)
+					}
+				}
+			}
+			for k := 0; k+1 <= len(reps); k++ {
+				a, b := reps[k], reps[(k+1)%len(reps)]
+				if a == b || (len(reps) == 2 && k == 1) {
+					continue
+				}
+				if c := count(m, a, b); c != 1 {
+					sig := "suffix.Segments|pair-count-missing"
+					if c > 1 {
+						sig = "suffix.Segments|pair-count-duplicate"
+					}
+					fail(sig, "text of %d bytes %q minLen %d maxLen %d: suffixes %d and %d share %s%d bytes; %d callbacks with m=%d contain both (want exactly 1; %d callbacks received)", n, clip(t), minLen, maxLen, a, b, map[bool]string{true: "at least ", false: "exactly "}[m == maxLen], m, c, m, len(got))
+					return
+				}
+			}
+		}
+	}
+	// (3) a group with a longer common prefix is reported before the groups that contain it
+	for i := range got {
+		for j := i + 1; j < len(got); j++ {
+			if got[j].m > got[i].m && len(got[j].mem) <= len(got[i].mem) && got[i].set[got[j].mem[0]] && got[i].set[got[j].mem[len(got[j].mem)-1]] {
+				fail("suffix.Segments|order", "text of %d bytes %q: the group with m=%d (%d members) is reported before the group with m=%d (%d members) that it contains", n, clip(t), got[i].m, len(got[i].mem), got[j].m, len(got[j].mem))
+				return
+			}
+		}
+	}
+}
+
+func clipS(s string) string {
+	if len(s) > 80 {
+		return s[:80] + "...]"
+	}
+	return s
+}
+
+// longSegmentTexts: runs and periodic words longer than 64 bytes (more than 64 nested LCP intervals are open at
+// once at the end of a run) and a few (minLen, maxLen) pairs around the thresholds 63/64/65.
+func longSegmentTexts(f func(t []byte)) {
+	for _, n := range []int{66, 100, 130} {
+		f(bytes.Repeat([]byte("a"), n))
+		f(append(bytes.Repeat([]byte("a"), n), 'b'))
+		f(append([]byte("b"), bytes.Repeat([]byte("a"), n)...))
+		f(append(bytes.Repeat([]byte("b"), n), 'a'))
+		f(bytes.Repeat([]byte("ab"), n/2))
+		f(Fibonacci(n, 'a', 'b'))
+		f(append(bytes.Repeat([]byte("a"), n/2), bytes.Repeat([]byte("ab"), n/4)...))
+	}
+}
+
+func checkSegmentsLongText(t []byte, st *engine.Stats, col *engine.Collector) {
+	sa := ref.SuffixArray(t)
+	lcp := ref.LCPNaive(t, sa)
+	n := len(t)
+	for _, mm := range [][2]int{{0, n + 1}, {1, n}, {2, 273}, {2, 3}, {2, 64}, {63, 64}, {64, 65}, {3, 40}, {60, 70}, {0, 0}, {5, 5}, {64, 64}, {2, 63}, {2, 273}} {
+		checkSegmentsLong(t, sa, lcp, mm[0], mm[1], st, col)
+	}
+	st.Nontrivial++
+	st.States++
+}
+
 func checkSegmentsText(t []byte, st *engine.Stats, col *engine.Collector) {
+	if len(t) > 64 {
+		checkSegmentsLongText(t, st, col)
+		return
+	}
 	engine.Progress.Add(1)
 	n := len(t)
 	sa := ref.SuffixArray(t)
@@ -577,12 +737,16 @@ func init() {
 	register(&Check{
 		ID: "C10",
 		Shards: func(tier string) []engine.Shard {
-			return textShards("C10", c10Sets(tier), 7, func(t []byte, idx int64, st *engine.Stats, col *engine.Collector) {
+			shards := textShards("C10", c10Sets(tier), 7, func(t []byte, idx int64, st *engine.Stats, col *engine.Collector) {
 				checkSegmentsText(t, st, col)
 				if len(st.Samples) < 2 && len(t) > 5 {
 					st.Sample(map[string]any{"text": string(t), "all (minLen,maxLen) with": "0 <= minLen <= maxLen <= len+1"})
 				}
 			})
+			return append(shards, engine.Shard{Name: "C10/long-runs", Run: func(st *engine.Stats, col *engine.Collector) {
+				longSegmentTexts(func(t []byte) { checkSegmentsLongText(t, st, col) })
+				st.Sample(map[string]any{"text": "a^130 b", "(minLen,maxLen)": "(0,n+1) (1,n) (2,273) (2,3) (2,64) (63,64) (64,65) (3,40) (60,70) (0,0) (5,5) (64,64) (2,63) (2,273), all on one lcp table"})
+			}})
 		},
 		Replay: func(raw json.RawMessage, col *engine.Collector) error {
 			var tc TextCase
@@ -602,7 +766,7 @@ func init() {
 			for _, s := range c10Sets(tier) {
 				ss = append(ss, fmt.Sprintf("all strings over %q of length %d..%d", s.alphabet, s.minLen, s.maxLen))
 			}
-			return map[string]any{"texts": ss, "min_max": "every (minLen,maxLen) with 0 <= minLen <= maxLen <= len(text)+1", "sa_lcp_source": "naive reference suffix array and LCP table (independent of suffix.Sort/LCP)"}
+			return map[string]any{"texts": ss, "long_texts": "a^n, a^n b, b a^n, b^n a, (ab)^(n/2), Fibonacci(n), a^(n/2)(ab)^(n/4) for n in {66,100,130} with 14 (minLen,maxLen) pairs around 63/64/65 applied to one shared lcp table", "min_max": "every (minLen,maxLen) with 0 <= minLen <= maxLen <= len(text)+1 (shared lcp table, increasing maxLen)", "sa_lcp_source": "naive reference suffix array and LCP table (independent of suffix.Sort/LCP)"}
 		},
 		Rule:        "cases are (text, minLen, maxLen) triples, all distinct by construction; evaluations counts triples, distinct_nontrivial counts texts",
 		Explanation: "suffix.Segments callbacks against brute-force prefix groups: range/sharing, exactly-one coverage of every pair, inner-before-outer order, no panic",
